@@ -11,7 +11,7 @@ import json, os, random
 import core
 from stages.common import *
 
-MON_C13 = {"ChainIntact", "FinishedWhole", "KeyEpoch", "Resumes"}
+MON_C13 = {"ChainIntact", "FinishedWhole", "DkgDbConsistent", "KeyEpoch", "Resumes"}
 
 KEY_OPS = {"SaveFinishedTx", "CreateTruncate", "WriteSome", "Write", "DeleteShare", "DeleteGroup"}
 STD_NAME = "std"
@@ -84,14 +84,21 @@ def run(ctx, monitors):
     # 3. real code: scripted run, snapshots at the crash points, one fresh daemon per snapshot
     trace = run_harness(ctx, "./internal/core", "TestVerifPersist", "persist.ndjson", env={"VERIF_IN": inp},
                         tags="verif,conn_insecure", timeout=1500)
-    nrestart = count_lines(trace, "Restart")
+    restarts = [json.loads(l) for l in open(trace) if '"ev":"Restart"' in l]
+    nrestart = sum(1 for e in restarts if e.get("c", 0) == 0)
+    nmid = len(restarts) - nrestart
+    ncommit = count_lines(trace, "Commit")
+    ctx.notes.append("bolt write transactions of dkg.db / chain db observed at commit grain: %d; crash points inside a step "
+                     "(a commit followed by another commit of the same step): %d" % (ncommit, nmid))
+    if count_lines(trace, "Watch") < 2 * count_lines(trace, "Reset"):
+        ctx.inconclusive.append("persist: the bolt commits of dkg.db / chain db could not be observed (bbolt internals changed?)")
     if nrestart != npoints or ('"what":"crash point not reached"' in open(trace).read()):
         ctx.inconclusive.append("persist: %d of %d crash points were realised by the harness" % (nrestart, npoints))
     # 4. code -> spec
     ok, alarms, res = ctx.validate_trace("Trace_Persist", "Trace_Persist.cfg", trace, timeout=900)
     if ok:
         ctx.traces += count_lines(trace, "Reset")
-    ctx.extra["crash_points_restarted"] = nrestart
+    ctx.extra["crash_points_restarted"] = nrestart + nmid
     ctx.sample({"stage": "persist", "trace_head": sample_lines(trace, 3)})
     with open(trace) as fh:
         for line in fh:
@@ -131,7 +138,7 @@ def run(ctx, monitors):
                      "F16/F17 of DESIGN 8) was reproduced only by feeding the daemon's completed-DKG channel by hand; no production path reaches it in this "
                      "tree (the only producer, executeAndFinishDKG, never emits a group without the node itself), so no scripted run contains it")
     ctx.assumptions += [
-        "bbolt transaction atomicity and durability are trusted: a bolt transaction is one step, a crash is a copy of the files between steps",
+        "bbolt transaction atomicity and durability are trusted: a crash is a copy of the files between committed transactions; every commit of dkg.db and of the chain db is observed (bbolt's page writer db.ops.writeAt is wrapped by reflection, a meta page write = commit), a step of the specification must be exactly the number of transactions it says, a commit followed by another commit inside one step is a crash point of its own",
         "a crash is realised as a copy of the node's directories taken while the writer is parked at the step (process death; not power loss with unsynced pages)",
         "a torn key file is the prefix of the new bytes of length 0 (observed after os.Create) and of half the length (derived from the completed write)",
         "the kyber DKG protocol is not run: the harness performs the tail of dkg.Process.executeAndFinishDKG (Complete, SaveFinished, fan-out send) itself in the code's order on the daemon's real store and channel",
